@@ -224,5 +224,35 @@ def prop(ctx, case):
     ctx.record((bool(applied) or classes2 is not None) and changed, labels)
 
 
-PARTS = [Part("pairs", prop, strategy=cases, quick=12000, thorough=200000)]
+def default_cases(ctx):
+    """Tiny graphs around a parameter whose default is a configuration: the value is the default
+    itself, a structurally equal configuration, one of a subclass with equal inherited values,
+    or one that differs in a hashed or an ignored value"""
+
+    @st.composite
+    def _cases(draw):
+        cls = draw(st.sampled_from(["Leaf", "Leaf", "Leaf2"]))
+        args = [["i", draw(st.sampled_from([1, 1, 2]))]]
+        if draw(st.booleans()):
+            args.append(["f", draw(st.sampled_from([1.5, 2.5]))])
+        if cls == "Leaf2" and draw(st.booleans()):
+            args.append(["z", draw(st.sampled_from(["", "a"]))])
+        if draw(st.integers(0, 3)) == 0:
+            args.append(["m", draw(st.sampled_from([0, 9]))])
+        node = lambda c, a: {"cls": c, "args": a, "meta": None, "tags": [], "pre": [], "patches": [], "submit": None}
+        holder_args = [] if draw(st.integers(0, 3)) == 0 else [["sub", {"ref": 0}]]
+        if draw(st.booleans()):
+            holder_args.append(["w", draw(st.sampled_from([0, 1]))])
+        bp = {"nodes": [node(cls, args), node("WithDefault", holder_args)]}
+        if draw(st.booleans()):
+            bp["nodes"].append(node("Node", [["others", [{"ref": 1}]]]))
+        return {"bp": bp, "edits": [], "const": None, "prune": False}
+
+    return _cases()
+
+
+PARTS = [
+    Part("pairs", prop, strategy=cases, quick=12000, thorough=200000),
+    Part("config-default", prop, strategy=default_cases, quick=1600, thorough=16000, shards=2),
+]
 TIMEOUT = {"quick": 600, "thorough": 3600}
